@@ -189,6 +189,84 @@ Theorem guarded_content_confined_with_file_cache :
               sfilter parse_ims prime override refuses vary_tuple vary_header clear_alias [] now ops).
 Proof. exact guarded_content_confined_fcache_lemma. Qed.
 
+(** FILES THAT CHANGE during a history (a page is deployed after its 404 was cached; a public page gets an [!> allow-ips]
+    line; a list is edited; a file is deleted ...): a history is a list of (world, operation) — the [world] is what the
+    server reads at that moment (public files, error pages, template engine), ANY sequence of worlds, while the response
+    cache lives through the whole history and may hold answers computed in earlier worlds.  If in every world of the
+    history the secret occurs only inside guarded files (and in no error page, and no template introduces it), then a reply
+    that contains the secret answers a request that the world OF ITS OWN MOMENT permits: a file marked [allow-ips], neither
+    hidden nor private, whose every [allow-ips] directive lists the client's address.  In particular the answer computed
+    for a listed client is never added as a new VARIANT to an item cached in an earlier world ([handle_vary_missing] applies
+    the admission test of a new item: the server cache preference None that [allow-ips] sets counts). *)
+Theorem guarded_content_confined_changing_files :
+  forall (fix_errline cors : bool) (secret : bytes),
+    (cors = true -> contains_sub secret (ps_body cors_pst) = false) ->
+  forall cache_on ims_on fix_ovkey fix_clear fix_svary fix_qmkey fix_ims sfilter parse_ims prime override refuses
+         vary_tuple vary_header clear_alias now (wops : list (world * opx)),
+    Forall (fun wo => world_ok secret (fst wo)) wops ->
+    Forall2 (reply_ok_w secret prime) wops
+      (run_gw true true fix_errline cors cache_on ims_on true fix_ovkey fix_clear fix_svary fix_qmkey fix_ims
+              sfilter parse_ims prime override refuses vary_tuple vary_header clear_alias ([], tt) now wops).
+Proof. exact guarded_content_confined_changing_lemma. Qed.
+
+(** the step of [handle_vary_missing] itself, for an [allow-ips] file: whatever item (of whatever earlier world) the lookup found
+    under whatever key, the answer computed now — for a listed or an unlisted client — is not pushed into it *)
+Theorem allow_ips_variant_never_pushed :
+  forall (fix_errline cors : bool) (fs : bytes -> option bytes) (errpage : N -> bytes) (tmpl : list bytes -> bytes -> bytes)
+         cache_on ims_on fix_svary fix_qmkey sfilter refuses vary_tuple vary_header c1 now r ov k e t c,
+    served_file (rq_path r) = Ok (Some t) -> fs t = Some c -> is_hidden t c = false -> is_allow_ips c = true ->
+    get_or_head (rq_method r) = true -> (cors && is_cors_fail ov) = false ->
+    fst (fst (vary_missingX unit (compute_g true true fix_errline cors fs errpage tmpl) cache_on ims_on true fix_svary fix_qmkey sfilter
+                            (negotiate_g errpage refuses) vary_tuple vary_header c1 tt now r ov true k e)) = (c1, tt).
+Proof. exact allow_ips_variant_never_pushed_lemma. Qed.
+
+(** ... which extends the histories with fixed files: a history whose world never changes is a history of [run_g] *)
+Theorem changing_files_extends_fixed_files :
+  forall fix_ext fix_lock fix_errline cors fs errpage tmpl cache_on ims_on fix_ovkey fix_clear fix_svary fix_qmkey fix_ims
+         sfilter parse_ims prime override refuses vary_tuple vary_header clear_alias c now ops,
+    run_gw fix_ext fix_lock fix_errline cors cache_on ims_on true fix_ovkey fix_clear fix_svary fix_qmkey fix_ims
+           sfilter parse_ims prime override refuses vary_tuple vary_header clear_alias (c, tt) now
+           (map (fun o => (mkW fs errpage tmpl, o)) ops) =
+    run_g fix_ext fix_lock fix_errline cors fs errpage tmpl cache_on ims_on fix_ovkey fix_clear fix_svary fix_qmkey fix_ims
+          sfilter parse_ims prime override refuses vary_tuple vary_header clear_alias c now ops.
+Proof. exact changing_files_extends_fixed_files_lemma. Qed.
+
+(** ... and the scenario runner of the differential run (component [guards.run], with the write operation of the fixture)
+    is [run_gw] over the worlds the writes produce; without writes it is the runner of the fixed-files theorems *)
+Theorem scenario_without_writes_unchanged : forall fix_ext fix_lock fix_errline g ops,
+  run_gcfg_w fix_ext fix_lock fix_errline true g (map GOp ops) = run_gcfg fix_ext fix_lock fix_errline g ops.
+Proof. exact run_gcfg_w_no_writes_lemma. Qed.
+
+(** THE [!> ] LINE HAS NO LENGTH LIMIT.  For every line of the grammar of Properties/C16.v [present_line_spec] — [!> ], words
+    separated by single spaces (an empty word = one more space), ended by LF or CRLF; ANY number of words of ANY length —
+    the directives the guards see are exactly those written on the line, and the body is what follows the line ... *)
+Theorem guard_line_any_length : forall (ws : list bytes) (crlf : bool) (rest : bytes),
+  PresentLine.line_words_ok ws ->
+  line_of (PresentLine.render_line ws crlf ++ rest) =
+    Some {| PresentLine.p_entries := PresentLine.group_words None (PresentLine.nonempty_words ws);
+            PresentLine.p_data_start := length (PresentLine.render_line ws crlf);
+            PresentLine.p_body := rest |} /\
+  entries_of (PresentLine.render_line ws crlf ++ rest) = PresentLine.group_words None (PresentLine.nonempty_words ws).
+Proof. exact guard_line_any_length_lemma. Qed.
+
+(** ... so [!> allow-ips a1 a2 ... an] with a list of ANY length (words without space, CR, LF that are not [&>]) decides as
+    written: an address that no argument lists gets the host's 404, a listed one the body after the line, never stored *)
+Theorem long_allow_list_decides :
+  forall (cors : bool) (fs : bytes -> option bytes) (errpage : N -> bytes) (tmpl : list bytes -> bytes -> bytes),
+    first_tmpl (entries_of (errpage 404)) = None ->
+  forall r ov t (addrs : list bytes) (crlf : bool) (rest : bytes),
+    Forall addr_word addrs ->
+    served_file (rq_path r) = Ok (Some t) -> fs t = Some (PresentLine.render_line (N_ALLOW :: addrs) crlf ++ rest) ->
+    get_or_head (rq_method r) = true -> (cors && is_cors_fail ov) = false ->
+    (existsb (arg_matches (rq_addr r)) addrs = false ->
+       f_status (layer_b true true true cors fs errpage tmpl r ov true) = 404 /\
+       f_body (layer_b true true true cors fs errpage tmpl r ov true) = host_404_body errpage) /\
+    (existsb (arg_matches (rq_addr r)) addrs = true -> is_private t = false ->
+       f_status (layer_b true true true cors fs errpage tmpl r ov true) = 200 /\
+       f_body (layer_b true true true cors fs errpage tmpl r ov true) = rest /\
+       f_spref (layer_b true true true cors fs errpage tmpl r ov true) = SP_NONE).
+Proof. exact long_allow_list_decides_lemma. Qed.
+
 (** The statement is false of the code before the repairs (models selected by the switches):
     (a) extension lookup on the raw path: [GET /secret%2Eprivate], cache on or off; *)
 Theorem private_spelling_v0_refuted :
@@ -221,6 +299,15 @@ Proof. exact tmpl_names_guarded_file_refuted_lemma. Qed.
 Theorem allow_404_template_refuted :
   exists b1 b2, w_bodies (w_run_gen w_err_tmpl w_render true true true true w_both_twins) = [(404, b1); (404, b2); (404, b2)] /\ b1 <> b2.
 Proof. exact allow_404_template_refuted_lemma. Qed.
+(** (f) [handle_vary_missing] before kvarn 8fe98d4 ([fix_vary = false]: every computed variant is pushed into an item that is
+        already cached): [/page.html] has a vary rule; a stranger fetches variant "a" while the page is public; the file gets
+        [!> allow-ips 10.0.0.1]; 10.0.0.1 fetches variant "b"; 10.0.0.2 is then served variant "b" from the cache *)
+Theorem vary_admission_v0_refuted :
+  Forall (fun wo => world_ok W_SECRET (fst wo)) w_deploy /\ violates_w W_SECRET w_deploy (w_run_w false w_deploy).
+Proof. exact vary_admission_v0_refuted_lemma. Qed.
+Theorem violates_w_contradicts_confined : forall secret wops obs,
+  violates_w secret wops obs -> ~ Forall2 (reply_ok_w secret (fun r => r)) wops obs.
+Proof. exact violates_w_not_ok. Qed.
 Theorem violates_contradicts_confined : forall fs secret ops obs,
   violates fs secret ops obs -> ~ Forall2 (reply_ok fs secret (fun r => r)) ops obs.
 Proof. exact violates_not_ok. Qed.
@@ -241,6 +328,20 @@ Example listed_address_is_served :
       (404, false, false); (200, true, true); (404, false, false); (200, true, true);
       (200, true, true) ].
 Proof. exact w_history_repaired. Qed.
+(** files that change: the same history on the repaired model — the stranger gets the 404 — and on the model before 8fe98d4
+    (status, reply carries the secret?, permitted in the world of its moment?) *)
+Example deploy_history_repaired :
+  w_summary_w w_deploy (w_run_w true w_deploy) = [ (200, false, false); (0, false, false); (200, true, true); (404, false, false) ] /\
+  w_summary_w w_deploy (w_run_w false w_deploy) = [ (200, false, false); (0, false, false); (200, true, true); (200, true, false) ].
+Proof. exact w_deploy_repaired_lemma. Qed.
+(** a line of 60 addresses (more than 512 bytes) is a line *)
+Example long_line_example :
+  let addrs := map (fun k => B "10.20.30." ++ dec (N.of_nat k)) (seq 1 60) in
+  Nat.ltb 512 (length (PresentLine.render_line (N_ALLOW :: addrs) false)) = true /\
+  entries_of (PresentLine.render_line (N_ALLOW :: addrs) false ++ B "SECRET") = [(N_ALLOW, addrs)] /\
+  listed (V4_BASE + 169090600) (entries_of (PresentLine.render_line (N_ALLOW :: addrs) false ++ B "SECRET")) = true /\
+  listed (V4_BASE + 169090661) (entries_of (PresentLine.render_line (N_ALLOW :: addrs) false ++ B "SECRET")) = false.
+Proof. vm_compute. repeat split; reflexivity. Qed.
 Example spelling_example :
   pct_encode [None; None; Some (true, true)] (B "/s.private") = B "/s%2Eprivate" /\
   pct_encode [None; Some (false, false); Some (false, false)] (B "/s.private") = B "/%73%2eprivate" /\
